@@ -224,6 +224,14 @@ func (l *Lexer) readDigit(tok *token.Token) {
 
 func (l *Lexer) readFloat(hasReadExponentAlready bool, tok *token.Token) {
 
+	if hasReadExponentAlready {
+		// ExponentPart: ExponentIndicator Sign? Digit+ (the indicator has been read by the caller)
+		optionalPlusMinus := l.peekRune(false)
+		if optionalPlusMinus == runes.SUB || optionalPlusMinus == runes.ADD {
+			l.readRune()
+		}
+	}
+
 	var r byte
 	for {
 		r = l.peekRune(false)
